@@ -246,6 +246,11 @@ func wellFormed(t *tree.Tree) string {
 	if r == nil {
 		return "nil root"
 	}
+	if r.Tip() && r.Name() != "" && len(r.Neigh()) == 1 && !r.Neigh()[0].Tip() {
+		// a named leaf is a tip of the tree, not its root (its branch would
+		// point towards it, not away from the root)
+		return "a tip is the root"
+	}
 	seen := map[*tree.Node]bool{}
 	nnodes, nedges := 0, 0
 	msg := ""
